@@ -4,7 +4,7 @@
    [writes_ok] is H-quiet: only a running command writes, and only its declared outputs. *)
 From Coq Require Import String.
 From N2 Require Import Model.All Proofs.SchedSpec Proofs.DbSpec Proofs.WorldSpec Proofs.JointSpec.
-From N2 Require Import Proofs.JointProps Proofs.JointMain.
+From N2 Require Import Proofs.JointProps Proofs.JointMain Proofs.JointVacuity Proofs.JointExample.
 
 (* J1: every output of a step that became Done in this Work is in the stat cache with the mtime the tree has *)
 Theorem joint_done_outputs_cached : forall (cf : config) (decls : list (bytes * nat)) (wg : wgraph), graph_wf (cf_graph cf) -> graphs_agree (cf_graph cf) wg -> forall (s : bstates) (fl : option nat) (w0 : wstate) (tr : list jitem) (r : rstate) (w : wstate), wanted (cf_graph cf) (bs_new (length (g_builds (cf_graph cf))) decls) s -> ws_cache w0 = [] -> jaccepted cf wg (run_init s fl) w0 tr r w -> writes_ok wg [] tr -> forall b, get_state (rs_bs r) b = Done -> forall o, In o (wb_outs (get_wbuild wg b)) -> cache_get (ws_cache w) o = Some (fs_get (ws_fs w) o).
@@ -39,12 +39,49 @@ Theorem joint_at_verdict : forall (cf : config) (decls : list (bytes * nat)) (wg
 Proof. exact P_at_verdict. Qed.
 Print Assumptions joint_at_verdict.
 
-(* J4: the null build of a whole invocation.  Work 1 (not in adopt mode) is loaded from the log of a crash-free writer and returns success; its discovered dependencies (loaded and reported) are source files; every declared input, kept dependency and output of every wanted step with a command exists afterwards.  Work 2 starts from exactly the tree and log Work 1 left, same manifest, no new targets: it starts nothing, every verdict is clean, nothing is written or recorded, it can only return success, tasks_run = 0. *)
-Theorem C03_null_build_invocation : forall (cf cf2 : config) (decls decls2 : list (bytes * nat)) (wg : wgraph) (wp : wstate) (ws0 : list wr) (fs0 : fsmap) (w0 : wstate) (s1 : bstates) (fl1 : option nat) (pre1 : list jitem) (r1 : rstate) (w1 : wstate) (w20 : wstate) (s2 : bstates) (fl2 : option nat) (tr2 : list jitem) (r2 : rstate) (w2 : wstate), graph_wf (cf_graph cf) -> graphs_agree (cf_graph cf) wg -> cf_graph cf2 = cf_graph cf -> cf_adopt cf = false -> (forall b, b < length (g_builds (cf_graph cf)) -> wb_outs (get_wbuild wg b) <> []) -> log_is wp ws0 -> Forall in_bounds ws0 -> table_small ws0 -> load_state wg fs0 (ws_log wp) = Ok w0 -> wanted (cf_graph cf) (bs_new (length (g_builds (cf_graph cf))) decls) s1 -> jaccepted cf wg (run_init s1 fl1) w0 (pre1 ++ [JReturn (Some true)]) r1 w1 -> writes_ok wg [] (pre1 ++ [JReturn (Some true)]) -> (forall b d, get_state s1 b <> Unknown -> In d (disc_of w0 b) -> producer_of wg d = None) -> (forall b t rep n d, In (JFinish b t rep) pre1 -> In n (reported_names rep) -> n <> [] -> canon n = Ok d -> producer_of wg d = None) -> (forall b n, b < length (g_builds (cf_graph cf)) -> wb_cmdline (get_wbuild wg b) <> None -> get_state s1 b <> Unknown -> In n (wb_dirtying (get_wbuild wg b) ++ disc_of w1 b ++ wb_outs (get_wbuild wg b)) -> fs_get (ws_fs w1) n <> None) -> (forall ws1, log_is w1 ws1 -> Forall in_bounds ws1 /\ table_small ws1) -> load_state wg (ws_fs w1) (ws_log w1) = Ok w20 -> wanted (cf_graph cf) (bs_new (length (g_builds (cf_graph cf))) decls2) s2 -> (forall b, get_state s2 b <> Unknown -> get_state s1 b <> Unknown) -> jaccepted cf2 wg (run_init s2 fl2) w20 tr2 r2 w2 -> writes_ok wg [] tr2 -> (forall b, ~ In (JStart b) tr2) /\ (forall b v, In (JVerdict b v) tr2 -> v = VClean) /\ (forall n t, ~ In (JWrite n t) tr2) /\ (forall b h, ~ In (JRecord b h) tr2) /\ (forall ok, In (JReturn ok) tr2 -> ok = Some true) /\ rs_tasks_run r2 = 0.
+(* J4: the null build of a whole invocation.  Work 1 (not in adopt mode) is loaded from the log of a crash-free writer and returns success; its discovered dependencies (loaded and reported) are source files; every declared input, kept dependency and output of every wanted step with a command exists afterwards.  Work 2 starts from exactly the tree and log Work 1 left, same manifest, no new targets: it starts nothing, every verdict is clean, nothing is written or recorded, it can only return success, tasks_run = 0.
+
+   The log premise.  The log Work 1 leaves is that of the record list  ws0 ++ work_records wg w1 tr1 :
+   the records ws0 it was loaded from, then one record per JRecord b h item of Work 1's trace (the
+   outputs of step b, the dependency list kept for b, the hash h; Proofs/JointSpec.v).  That this is
+   the record list of the log is PROVED (JointLog.Work1_reach, JointMain.work1_records), not
+   assumed.  What cannot be derived are the limits of the record format (finding F7: fewer than 2^15
+   outputs, 2^16 dependencies, names shorter than 2^15, hashes below 2^64, fewer than 2^24 names in
+   the id table - outside them the writer silently truncates a count or panics), so the theorem
+   assumes them, for exactly that list:
+       Forall in_bounds (work_records wg w1 tr1)   and   table_small (ws0 ++ work_records wg w1 tr1).
+   Both are statements about data visible in the trace and the final state, and they hold for every
+   run of the real program on a project within the limits (the hashes h of JRecord items are u64
+   values; in the model [bytes] are unbounded numbers, so "h < 2^64" follows from the definition of
+   siphash13 only for streams of bytes < 256 - Proofs/HashVacuity.v, siphash13_lt - and deriving it
+   would need a premise that every name and command line of the project consists of such bytes; it
+   is therefore left in [in_bounds], as in C07/C08/C09, where it is a fact about the observed h).
+
+   An earlier version assumed instead
+       forall ws1, log_is w1 ws1 -> Forall in_bounds ws1 /\ table_small ws1,
+   which no state with a build record in its log satisfies: the writer stores hashes modulo 2^64, so
+   a log does not determine the hashes of its records ([C03_old_log_premise_unsatisfiable] below;
+   the theorem was vacuous unless Work 1 left an empty log).  Naming a record list ws1 at the top of
+   the theorem with  log_is w1 ws1 -> Forall in_bounds ws1 -> table_small ws1  would not do either:
+   the counts are stored modulo 2^16, so an out-of-limits list written by Work 1 and an unrelated
+   in-limits list can have the same log, and then Work 2 does not see what Work 1 recorded.
+   [C03_null_build_invocation_nonvacuous] exhibits a two-step project for which all hypotheses
+   hold (and the old premise fails). *)
+Theorem C03_null_build_invocation : forall (cf cf2 : config) (decls decls2 : list (bytes * nat)) (wg : wgraph) (wp : wstate) (ws0 : list wr) (fs0 : fsmap) (w0 : wstate) (s1 : bstates) (fl1 : option nat) (pre1 : list jitem) (r1 : rstate) (w1 : wstate) (w20 : wstate) (s2 : bstates) (fl2 : option nat) (tr2 : list jitem) (r2 : rstate) (w2 : wstate), graph_wf (cf_graph cf) -> graphs_agree (cf_graph cf) wg -> cf_graph cf2 = cf_graph cf -> cf_adopt cf = false -> (forall b, b < length (g_builds (cf_graph cf)) -> wb_outs (get_wbuild wg b) <> []) -> log_is wp ws0 -> Forall in_bounds ws0 -> table_small ws0 -> load_state wg fs0 (ws_log wp) = Ok w0 -> wanted (cf_graph cf) (bs_new (length (g_builds (cf_graph cf))) decls) s1 -> jaccepted cf wg (run_init s1 fl1) w0 (pre1 ++ [JReturn (Some true)]) r1 w1 -> writes_ok wg [] (pre1 ++ [JReturn (Some true)]) -> (forall b d, get_state s1 b <> Unknown -> In d (disc_of w0 b) -> producer_of wg d = None) -> (forall b t rep n d, In (JFinish b t rep) pre1 -> In n (reported_names rep) -> n <> [] -> canon n = Ok d -> producer_of wg d = None) -> (forall b n, b < length (g_builds (cf_graph cf)) -> wb_cmdline (get_wbuild wg b) <> None -> get_state s1 b <> Unknown -> In n (wb_dirtying (get_wbuild wg b) ++ disc_of w1 b ++ wb_outs (get_wbuild wg b)) -> fs_get (ws_fs w1) n <> None) -> Forall in_bounds (work_records wg w1 pre1) -> table_small (ws0 ++ work_records wg w1 pre1) -> load_state wg (ws_fs w1) (ws_log w1) = Ok w20 -> wanted (cf_graph cf) (bs_new (length (g_builds (cf_graph cf))) decls2) s2 -> (forall b, get_state s2 b <> Unknown -> get_state s1 b <> Unknown) -> jaccepted cf2 wg (run_init s2 fl2) w20 tr2 r2 w2 -> writes_ok wg [] tr2 -> (forall b, ~ In (JStart b) tr2) /\ (forall b v, In (JVerdict b v) tr2 -> v = VClean) /\ (forall n t, ~ In (JWrite n t) tr2) /\ (forall b h, ~ In (JRecord b h) tr2) /\ (forall ok, In (JReturn ok) tr2 -> ok = Some true) /\ rs_tasks_run r2 = 0.
 Proof. exact null_build_invocation_trace. Qed.
 Print Assumptions C03_null_build_invocation.
 
 (* the same with "Work 1 returned success" as a fact about its final control state *)
-Theorem C03_null_build_invocation_returned : forall (cf cf2 : config) (decls decls2 : list (bytes * nat)) (wg : wgraph) (wp : wstate) (ws0 : list wr) (fs0 : fsmap) (w0 : wstate) (s1 : bstates) (fl1 : option nat) (tr1 : list jitem) (r1 : rstate) (w1 : wstate) (w20 : wstate) (s2 : bstates) (fl2 : option nat) (tr2 : list jitem) (r2 : rstate) (w2 : wstate), graph_wf (cf_graph cf) -> graphs_agree (cf_graph cf) wg -> cf_graph cf2 = cf_graph cf -> cf_adopt cf = false -> (forall b, b < length (g_builds (cf_graph cf)) -> wb_outs (get_wbuild wg b) <> []) -> log_is wp ws0 -> Forall in_bounds ws0 -> table_small ws0 -> load_state wg fs0 (ws_log wp) = Ok w0 -> wanted (cf_graph cf) (bs_new (length (g_builds (cf_graph cf))) decls) s1 -> jaccepted cf wg (run_init s1 fl1) w0 tr1 r1 w1 -> writes_ok wg [] tr1 -> rs_ctl r1 = CReturned (Some true) -> (forall b d, get_state s1 b <> Unknown -> In d (disc_of w0 b) -> producer_of wg d = None) -> (forall b t rep n d, In (JFinish b t rep) tr1 -> In n (reported_names rep) -> n <> [] -> canon n = Ok d -> producer_of wg d = None) -> (forall b n, b < length (g_builds (cf_graph cf)) -> wb_cmdline (get_wbuild wg b) <> None -> get_state s1 b <> Unknown -> In n (wb_dirtying (get_wbuild wg b) ++ disc_of w1 b ++ wb_outs (get_wbuild wg b)) -> fs_get (ws_fs w1) n <> None) -> (forall ws1, log_is w1 ws1 -> Forall in_bounds ws1 /\ table_small ws1) -> load_state wg (ws_fs w1) (ws_log w1) = Ok w20 -> wanted (cf_graph cf) (bs_new (length (g_builds (cf_graph cf))) decls2) s2 -> (forall b, get_state s2 b <> Unknown -> get_state s1 b <> Unknown) -> jaccepted cf2 wg (run_init s2 fl2) w20 tr2 r2 w2 -> writes_ok wg [] tr2 -> (forall b, ~ In (JStart b) tr2) /\ (forall b v, In (JVerdict b v) tr2 -> v = VClean) /\ (forall n t, ~ In (JWrite n t) tr2) /\ (forall b h, ~ In (JRecord b h) tr2) /\ (forall ok, In (JReturn ok) tr2 -> ok = Some true) /\ rs_tasks_run r2 = 0.
+Theorem C03_null_build_invocation_returned : forall (cf cf2 : config) (decls decls2 : list (bytes * nat)) (wg : wgraph) (wp : wstate) (ws0 : list wr) (fs0 : fsmap) (w0 : wstate) (s1 : bstates) (fl1 : option nat) (tr1 : list jitem) (r1 : rstate) (w1 : wstate) (w20 : wstate) (s2 : bstates) (fl2 : option nat) (tr2 : list jitem) (r2 : rstate) (w2 : wstate), graph_wf (cf_graph cf) -> graphs_agree (cf_graph cf) wg -> cf_graph cf2 = cf_graph cf -> cf_adopt cf = false -> (forall b, b < length (g_builds (cf_graph cf)) -> wb_outs (get_wbuild wg b) <> []) -> log_is wp ws0 -> Forall in_bounds ws0 -> table_small ws0 -> load_state wg fs0 (ws_log wp) = Ok w0 -> wanted (cf_graph cf) (bs_new (length (g_builds (cf_graph cf))) decls) s1 -> jaccepted cf wg (run_init s1 fl1) w0 tr1 r1 w1 -> writes_ok wg [] tr1 -> rs_ctl r1 = CReturned (Some true) -> (forall b d, get_state s1 b <> Unknown -> In d (disc_of w0 b) -> producer_of wg d = None) -> (forall b t rep n d, In (JFinish b t rep) tr1 -> In n (reported_names rep) -> n <> [] -> canon n = Ok d -> producer_of wg d = None) -> (forall b n, b < length (g_builds (cf_graph cf)) -> wb_cmdline (get_wbuild wg b) <> None -> get_state s1 b <> Unknown -> In n (wb_dirtying (get_wbuild wg b) ++ disc_of w1 b ++ wb_outs (get_wbuild wg b)) -> fs_get (ws_fs w1) n <> None) -> Forall in_bounds (work_records wg w1 tr1) -> table_small (ws0 ++ work_records wg w1 tr1) -> load_state wg (ws_fs w1) (ws_log w1) = Ok w20 -> wanted (cf_graph cf) (bs_new (length (g_builds (cf_graph cf))) decls2) s2 -> (forall b, get_state s2 b <> Unknown -> get_state s1 b <> Unknown) -> jaccepted cf2 wg (run_init s2 fl2) w20 tr2 r2 w2 -> writes_ok wg [] tr2 -> (forall b, ~ In (JStart b) tr2) /\ (forall b v, In (JVerdict b v) tr2 -> v = VClean) /\ (forall n t, ~ In (JWrite n t) tr2) /\ (forall b h, ~ In (JRecord b h) tr2) /\ (forall ok, In (JReturn ok) tr2 -> ok = Some true) /\ rs_tasks_run r2 = 0.
 Proof. exact null_build_invocation. Qed.
 Print Assumptions C03_null_build_invocation_returned.
+
+(* the premise the two theorems above used to carry fails for every state whose log holds a build record *)
+Theorem C03_old_log_premise_unsatisfiable : forall (w : wstate) (ws : list wr) (x : wr), log_is w (ws ++ [x]) -> ~ (forall ws1, log_is w ws1 -> Forall in_bounds ws1 /\ table_small ws1).
+Proof. exact old_log_premise_unsatisfiable. Qed.
+Print Assumptions C03_old_log_premise_unsatisfiable.
+
+(* non-vacuity: all hypotheses of C03_null_build_invocation hold together in a two-step project (o <- cc a, reporting a and x/../h;  p <- ld o) whose Work 1 runs and records both steps and returns success; Work 2's trace has both clean verdicts and the successful return; the old premise fails there.  Witnesses and the theorem applied to them: Proofs/JointExample.v (nv_hyps_hold, null_build_hyps_use, nv_conclusion). *)
+Example C03_null_build_invocation_nonvacuous : exists (cf cf2 : config) (decls decls2 : list (bytes * nat)) (wg : wgraph) (wp : wstate) (ws0 : list wr) (fs0 : fsmap) (w0 : wstate) (s1 : bstates) (fl1 : option nat) (pre1 : list jitem) (r1 : rstate) (w1 : wstate) (w20 : wstate) (s2 : bstates) (fl2 : option nat) (tr2 : list jitem) (r2 : rstate) (w2 : wstate), graph_wf (cf_graph cf) /\ graphs_agree (cf_graph cf) wg /\ cf_graph cf2 = cf_graph cf /\ cf_adopt cf = false /\ (forall b, b < length (g_builds (cf_graph cf)) -> wb_outs (get_wbuild wg b) <> []) /\ log_is wp ws0 /\ Forall in_bounds ws0 /\ table_small ws0 /\ load_state wg fs0 (ws_log wp) = Ok w0 /\ wanted (cf_graph cf) (bs_new (length (g_builds (cf_graph cf))) decls) s1 /\ jaccepted cf wg (run_init s1 fl1) w0 (pre1 ++ [JReturn (Some true)]) r1 w1 /\ writes_ok wg [] (pre1 ++ [JReturn (Some true)]) /\ (forall b d, get_state s1 b <> Unknown -> In d (disc_of w0 b) -> producer_of wg d = None) /\ (forall b t rep n d, In (JFinish b t rep) pre1 -> In n (reported_names rep) -> n <> [] -> canon n = Ok d -> producer_of wg d = None) /\ (forall b n, b < length (g_builds (cf_graph cf)) -> wb_cmdline (get_wbuild wg b) <> None -> get_state s1 b <> Unknown -> In n (wb_dirtying (get_wbuild wg b) ++ disc_of w1 b ++ wb_outs (get_wbuild wg b)) -> fs_get (ws_fs w1) n <> None) /\ Forall in_bounds (work_records wg w1 pre1) /\ table_small (ws0 ++ work_records wg w1 pre1) /\ load_state wg (ws_fs w1) (ws_log w1) = Ok w20 /\ wanted (cf_graph cf) (bs_new (length (g_builds (cf_graph cf))) decls2) s2 /\ (forall b, get_state s2 b <> Unknown -> get_state s1 b <> Unknown) /\ jaccepted cf2 wg (run_init s2 fl2) w20 tr2 r2 w2 /\ writes_ok wg [] tr2 /\ In (JRecord 0 8172001350084429517%N) pre1 /\ In (JRecord 1 17431866117220885716%N) pre1 /\ length (work_records wg w1 pre1) = 2 /\ disc_of w1 0 <> [] /\ In (JVerdict 0 VClean) tr2 /\ In (JVerdict 1 VClean) tr2 /\ In (JReturn (Some true)) tr2 /\ ~ (forall ws1, log_is w1 ws1 -> Forall in_bounds ws1 /\ table_small ws1).
+Proof. exact nv_hyps. Qed.
+Print Assumptions C03_null_build_invocation_nonvacuous.
